@@ -25,6 +25,36 @@ def pair_cfgs(rng, limit):
     return c1, c2
 
 
+def used_classes(o, acc):
+    stack = [o]
+    while stack:
+        x = stack.pop()
+        if x[0] == 1:
+            if x[1][0] == 9:
+                acc.add(x[1][1])
+            stack.extend(x[2:])
+    return acc
+
+
+def vary_regs(rng, regs, used):
+    """the registry after the first treespec was made: a class (preferably one the trees use) unregistered and
+    registered again (a new registration), dropped, or registered in one more namespace"""
+    regs = list(regs)
+    pref = [i for i, q in enumerate(regs) if q[0] in used]
+    i = rng.choice(pref) if pref and rng.random() < 0.85 else rng.randrange(len(regs))
+    c, n_, rid, pet = regs[i]
+    r = rng.random()
+    if r < 0.6:
+        regs[i] = (c, n_, 1000 + rid, pet)
+    elif r < 0.8:
+        del regs[i]
+    else:
+        n2 = rng.choice([x for x in (0, 1, 2) if x != n_])
+        if not any(q[0] == c and q[1] == n2 for q in regs) and not (c == 4 and n2 != 2):
+            regs.append((c, n2, 2000 + rid, pet))
+    return tuple(regs)
+
+
 def run_inspect(res, rng, n, limit):
     cmds, obs = [], []
     for i in range(n):
@@ -54,6 +84,9 @@ def run_pairs(res, rng, n, limit, hook=None):
             o2, label = o1, 'same_tree_other_namespace'
         if rng.random() < 0.3:
             o1, o2 = o2, o1
+        if c1[3] and rng.random() < 0.2:
+            c2 = (c2[0], c2[1], c2[2], vary_regs(rng, c1[3], used_classes(o1, used_classes(o2, set()))), c2[4], c2[5])
+            res.count('pair_registry_changed_between')
         res.count('pair_' + label)
         res.note_input((c1, o1, c2, o2), gen.obj_internal(o1) + gen.obj_internal(o2) >= 2)
         h = (lambda *a, _c=(3, c1, o1, c2, o2): hook(res, _c, *a)) if hook else None
